@@ -26,6 +26,7 @@ func init() {
 			"(R20.7) every StackIterator implementation returns from Function() a value that does not alias the iterator (a genuine compiler defect – the multi-listener adapter saw the outermost function for every frame – was found and fixed); (R20.8) the parallel frame caches of the multi-listener adapter are reset together; (R20.6) what a cached compiled module captures of the listeners must be covered by the module identity – on this tree the engines store the listener objects while the identity hashes only their nil-ness: a second CompileModule of the same binary under another listener factory silently uses the first factory's listeners (demonstrated on both engines, recorded as two known findings). " +
 			"NOT decided: the native return-address walk itself, nesting under unwinding, equality of event streams between engines, parameter/result values.",
 		Rules: []core.Rule{
+			{ID: "R20.17", Template: "T-MUSTPASS", Text: "interpreter: the frame of an entered function is pushed before the entry-time poll of the closed flag", Min: 1},
 			{ID: "R20.16", Template: "T-SIBLING", Text: "the Before-trampoline predicate of the stack-overflow exit path looks at the Before trampolines only", Min: 1},
 			{ID: "R20.14", Template: "T-MUSTPASS", Text: "stack-overflow exit path: the Before-trampoline test reads the innermost unwound return address before it is dropped", Min: 1},
 			{ID: "R20.15", Template: "T-SIBLING", Text: "the stack iterator's completeness test compares the bounded unwinder's result with the limit it was given", Min: 1},
@@ -45,6 +46,7 @@ func init() {
 		},
 		Run: runC20,
 		Controls: []core.Control{
+			{Name: "interp-frame-pushed-after-entry-poll", File: "internal/engine/interpreter/interpreter.go", Old: "\telementInstances := moduleInst.ElementInstances\n\tce.pushFrame(frame)\n", New: "\telementInstances := moduleInst.ElementInstances\n", Old2: "\tbody := frame.f.parent.body\n\tbodyLen := uint64(len(body))\n\tfor frame.pc < bodyLen {", New2: "\tce.pushFrame(frame)\n\tbody := frame.f.parent.body\n\tbodyLen := uint64(len(body))\n\tfor frame.pc < bodyLen {", Rule: "R20.17", Substr: "pushed before"},
 			{Name: "before-predicate-matches-after-trampolines", File: "internal/engine/wazevo/engine.go", Old: "\tfor _, buf := range e.sharedFunctions.listenerBeforeTrampolines {\n\t\tif checkAddrInBytes(addr, buf) {\n\t\t\treturn true\n\t\t}\n\t}\n\treturn false\n", New: "\tfor _, buf := range e.sharedFunctions.listenerBeforeTrampolines {\n\t\tif checkAddrInBytes(addr, buf) {\n\t\t\treturn true\n\t\t}\n\t}\n\tfor _, buf := range e.sharedFunctions.listenerAfterTrampolines {\n\t\tif checkAddrInBytes(addr, buf) {\n\t\t\treturn true\n\t\t}\n\t}\n\treturn false\n", Rule: "R20.16", Substr: "Before trampolines only"},
 			{Name: "before-trampoline-test-after-drop", File: "internal/engine/wazevo/call_engine.go", Old: "\t\t\t\t\tinBefore := c.parent.parent.parent.isListenerBeforeTrampoline(returnAddrs[0])\n\t\t\t\t\treturnAddrs = returnAddrs[1:]\n\t\t\t\t\tif inBefore && len(returnAddrs) > 0 {", New: "\t\t\t\t\treturnAddrs = returnAddrs[1:]\n\t\t\t\t\tif len(returnAddrs) > 0 && c.parent.parent.parent.isListenerBeforeTrampoline(returnAddrs[0]) {", Rule: "R20.14", Substr: "innermost"},
 			{Name: "unwind-completeness-excludes-seed", File: "internal/engine/wazevo/call_engine.go", Old: "\tif len(si.retAddrs) < limit {\n\t\tlimit = 0\n\t}", New: "\tif len(si.retAddrs)-1 < limit {\n\t\tlimit = 0\n\t}", Rule: "R20.15", Substr: "whole stack"},
@@ -74,6 +76,7 @@ func init() {
 func runC20(c *core.Ctx) {
 	c.SSA()
 	checkOverflowUnwindOrder(c)
+	checkFramePushedBeforeEntryPoll(c)
 	checkBeforePredicateOnlyBefore(c)
 	checkUnwindCompleteness(c)
 	checkFrontendListener(c)
